@@ -116,19 +116,19 @@ EXTRA = {
  "C06": " Every family runs with the capturing logger at Trace and with logging off; offset-grid family: every offset word over every value (aligned or not) up to past the message length, offset pairs over a grid incl. misaligned values.",
  "C07": " Plus all permutations of the tag sequence of 11 request shapes (only the ascending order is well-formed) and header-word sweeps of valid requests.",
  "C08": " Plus ~4.3k near-valid single datagrams (every header word of a valid classic / IETF / IETF+SRV request swept over its range, incl. requests carrying both padding tags) at every log level, and bursts of k valid requests of one protocol (k up to 129, every Merkle depth; with batch_size 1 and 2 the burst hits the per-call batch cap and the worker must keep serving).",
- "C02": " The determinism self-test's two runs (same burst on two fresh Server objects of one process) are judged like any other execution. Identical datagrams in one batch (retransmissions) are requests of their own; framed requests offering draft-13 together with other version numbers are answered as draft-13. Fault injection: besides the share of failing replies, their independence within a signed batch (almost-uniform batches bounded by C(N,K) q^K).",
+ "C02": " The determinism self-test's two runs (same burst on two fresh Server objects of one process) are judged like any other execution. Identical datagrams in one batch (retransmissions) are requests of their own; framed requests offering draft-13 together with other version numbers are answered as draft-13; the fault-injection clause also on the real binary configured from file and environment. Fault injection: besides the share of failing replies, their independence within a signed batch (almost-uniform batches bounded by C(N,K) q^K).",
  "C11": " Plus histories ending with a request that arrives inside a wake-up (at the polled/collected/sent hook point): its midpoint is not earlier than its send time. The real server binary under six local time zones: same bracket.",
  "C18": " Plus, with per-client statistics, W in-process Servers sharing one statistics queue of capacity 2W: every assignment of R hand-off rounds to the workers x every position of the single reporter pass. Controlled scenarios in which requests arrive early (every socket bound, a worker's Server not built yet).",
- "C19": " A second signal during the shutdown is an environment action too (controlled scenarios and sampled wall-clock runs): still exit 0; so is a health-check connection left silent and open at the signal; a server launched with SIGHUP or SIGINT inherited as ignored; per-client statistics with status_interval 0 and 1.",
+ "C19": " A second signal during the shutdown is an environment action too (controlled scenarios and sampled wall-clock runs): still exit 0; so is a health-check connection left silent and open at the signal; a server launched with SIGHUP or SIGINT inherited as ignored; the signal delivered to a worker thread or while the process is stopped; per-client statistics with status_interval 0 and 1.",
  "C09": " IETF pool requests also name [0, draft-13] in VER; a framed request naming only version 0 is among the rejected kinds.",
  "C10": " Certificate sequences also certify the same online key again for the same and the other protocol; the real server started from file and ENV with seeds whose hex spelling invites another reading (all digits, exponent form, upper case) announces and certifies with the written seed's key; half of the live restarts run with fault_percentage 50 (deliberately invalid replies parsed leniently: their CERT is a certificate too).",
  "C12": " The table runs in five server states (batch sizes 1/2/4 with groups filling the batch exactly; after a full batch of 64); lists of length <= 2 again with extra tags that move VER/SRV/NONC to other field positions.",
  "C13": " Verifier also over every message length 0..=4096 in 5-7 chunkings with bit flips, prefix signatures and extended messages; every sequence (depth 4, thorough 5) of update/verify operations on ONE verifier object against direct verification; every interleaving (depth 5, thorough 6) of update/sign on TWO signer objects on one thread.",
- "C16": " Integer settings written as YAML reals with a fractional part are refused; an unknown key is refused whatever its value. Observed behaviour: worker threads of the real server for written num_workers up to 2*CPUs+1, both sources; share of deliberately invalid replies for written fault_percentage 0/10/25/49/50.",
- "C04": " A fifth leaf family: request-sized leaves sharing a 640-byte prefix. Issued proofs: the real Responder driven with every sequence of batch sizes (length <= 3 over 1..5, pairs over {1,2,33,64}), every reply authentic for its own request.",
+ "C16": " Integer settings written as YAML reals with a fractional part are refused; an unknown key is refused whatever its value; keys late in long (commented) files are effective / refused like early ones. Observed behaviour: worker threads of the real server for written num_workers up to 2*CPUs+1, both sources; share of deliberately invalid replies for written fault_percentage 0/10/25/49/50.",
+ "C04": " A fifth leaf family: request-sized leaves sharing a 640-byte prefix. Issued proofs: the real Responder driven with every sequence of batch sizes (length <= 3 over 1..5, pairs over {1,2,33,64}), every reply authentic for its own request; and bursts of every aligned request size through an in-process Server.",
  "C14": " Plus every sequence (length 2..=3, thorough 4) of decrypt operations (healthy / each provider fault / another provider / tampered copy) on one blob in one process, each step judged.",
- "C15": " A thread that never reaches another hook point is decided on the real process (held, then with every thread released): blocked for good = violation start-hang. Health histories include connections the peer aborts with RST before they are accepted.",
- "C17": " Plus the real Responder driven with return addresses send_to fails for: recorder totals vs datagrams that actually arrived, per batch; the merge exploration runs three times so that all eight recording kinds occur; the traffic comparison also runs with fault_percentage 50.",
+ "C15": " A thread that never reaches another hook point is decided on the real process (held, then with every thread released): blocked for good = violation start-hang. Two in-process servers on one shared statistics queue: every assignment of 6 hand-off rounds x every reporter position. Health histories include connections the peer aborts with RST before they are accepted.",
+ "C17": " Plus the real Responder driven with return addresses send_to fails for: recorder totals vs datagrams that actually arrived, per batch; the merge exploration runs three times so that all eight recording kinds occur; thousands of distinct client addresses in one publish window are all published; the traffic comparison also runs with fault_percentage 50.",
  "C20": " Plus configuration files whose structure is not a flat mapping (list, scalar, nested, sequences, several documents, broken quoting) and files giving every other setting a value of an unexpected YAML type, output of the real server scanned.",
 }
 for k, v in EXTRA.items():
